@@ -710,7 +710,8 @@ def _constants(ctx):
         raise AnalysisError("constants table not found")
     fm = prog.func("pylife.strength.fkm_nonlinear.constants:for_material_group")
     aliases = {}
-    for s in fm.node.body:
+    from ..astutil import unroll_literal_loops
+    for s in unroll_literal_loops(list(fm.node.body)):       # short keys may be assigned by a loop over a literal table of pairs
         if isinstance(s, ast.Assign) and isinstance(s.targets[0], ast.Subscript) and isinstance(s.value, ast.Subscript):
             aliases[const_value(s.targets[0].slice)] = const_value(s.value.slice)
     groups = sorted(table)
@@ -1192,7 +1193,10 @@ def _half(ctx):
         for n_ in ast.walk(fi.node):
             if isinstance(n_, ast.FunctionDef) and any(x_ is s for x_ in ast.walk(n_)):
                 owner = n_                       # innermost function containing the statement
-        cmp_ = s.value.args[0]
+        val = inline_single_defs(owner, s.value, depth=4)       # temporaries (the column, the ratio, the inverse slopes) resolved
+        if not (isinstance(val, ast.Call) and val.args):
+            val = s.value
+        cmp_ = val.args[0]
         ref = None
         if isinstance(cmp_, ast.Compare) and len(cmp_.ops) == 1:
             sides = [cmp_.left, cmp_.comparators[0]]
@@ -1200,8 +1204,8 @@ def _half(ctx):
             other = [x_ for x_ in sides if x_ not in col]
             ref = other[0] if len(col) == 1 and len(other) == 1 else None
         if ref is None:
-            return norm_text(inline_single_defs(owner, s.value))
-        marked = parse_expr(norm_text(s.value).replace(norm_text(ref), "REF"))
+            return norm_text(val)
+        marked = parse_expr(norm_text(val).replace(norm_text(ref), "REF"))
         return norm_text(inline_single_defs(owner, marked, keep=("REF",)))
     first = canon(*ns[0])
     if len(ns) == 1:
